@@ -530,7 +530,7 @@ func init() {
 		Assumptions: []string{"descendants that leave the process group are out of scope", "signals 9 and 19 cannot be trapped and are not in the grid", "/proc polled up to 5 s for survivors (load tolerance only)"},
 		Gen: func(seed int64, tier string) []fw.Case {
 			var cs []fw.Case
-			for i := 0; i < tierN(tier, 100, 1200); i++ {
+			for i := 0; i < tierN(tier, 200, 2400); i++ {
 				s := fw.SubSeed(seed, i)
 				cs = append(cs, fw.MkCase("C06", "tree", s, genRpCase(fw.Rand(s), i)))
 			}
